@@ -87,6 +87,10 @@ def Path.matchReq (s : PathState) (q : Req) : List Route :=
   (s.tree.filter (fun e => E.pathFind e.1.1 q.path)).map Prod.snd ++
     (s.statics.filter (fun e => e.1.1 == q.path)).map Prod.snd
 
+/-- `self.static_rules.len()`: the number of distinct static paths (a path whose last rule is removed leaves the
+map, in `remove` and in `batch_remove`). -/
+def staticKeyCount (l : List ((String × String) × Route)) : Nat := (l.map (·.1.1)).eraseDups.length
+
 /-- `PathAndQueryMatcher::trace` with the tree trace at specification level: one `Regex` node per
 tree entry below a synthetic root; a `Storage` node lists the entry's route iff the pattern matched. -/
 def Path.trace (s : PathState) (q : Req) : List Trace :=
@@ -98,7 +102,7 @@ def Path.trace (s : PathState) (q : Req) : List Trace :=
   let found := (s.statics.filter (fun e => e.1.1 == q.path)).map Prod.snd
   let staticT : List Trace :=
     if found.isEmpty then [] else [Trace.mk true true found.length (.storage found) []]
-  [treeT, Trace.mk (!staticT.isEmpty) true s.statics.length (.other "path_and_query_static") staticT]
+  [treeT, Trace.mk (!staticT.isEmpty) true (staticKeyCount s.statics) (.other "path_and_query_static") staticT]
 
 def pathOps : MOps where
   M := PathState
